@@ -65,6 +65,27 @@ M = {
  'c20-aggregate-forwards-build-only': ('src/engine/target_actor/aggregate_target_actor.rs',
    "                                if is_first_insertion {\n                                    self.helper.request_dependencies(kind).await;",
    "                                if is_first_insertion && kind == ExecutionKind::Build {\n                                    self.helper.request_dependencies(kind).await;", 'C20 C04 C11'),
+ 'c10-no-kill-on-cancel': ('src/engine/builder.rs',
+   "if let Err(e) = build_process.kill() {", "if let Err(e) = Ok::<(), std::io::Error>(()) {", 'C10'),
+ 'c10-skip-terminate-on-error': ('src/main.rs',
+   "            target_actors.terminate().await;\n\n            result?;", "            result?;\n\n            target_actors.terminate().await;", 'C10'),
+ 'c10-no-stop-service-at-exit': ('src/engine/target_actor/service_target_actor.rs',
+   "            }\n        }\n\n        self.stop_service().await;\n    }", "            }\n        }\n    }", 'C10 C11'),
+ 'c10-no-join': ('src/engine/target_actors.rs',
+   "        future::join_all(self.target_actor_join_handles).await;\n", "", 'C10'),
+ 'c10-bounded-relay': ('src/main.rs',
+   "let (target_actor_output_sender, target_actor_output_events) = channel::unbounded();", "let (target_actor_output_sender, target_actor_output_events) = channel::bounded(crate::DEFAULT_CHANNEL_CAP);", 'C04 C10'),
+ 'c12-filtered-deletes-path': ('src/clean.rs',
+   "            if resource.extensions.is_some() {", "            if false && resource.extensions.is_some() {", 'C12'),
+ 'c12-clean-t-removes-workdir': ('src/main.rs',
+   "            if requested_targets.is_some() {\n                for target in targets.values() {\n                    delete_saved_env_state(target.metadata()).await?;\n                }\n            } else {",
+   "            if false {\n                for target in targets.values() {\n                    delete_saved_env_state(target.metadata()).await?;\n                }\n            } else {", 'C12 C18'),
+ 'c12-clean-no-state-delete': ('src/main.rs',
+   "                    delete_saved_env_state(target.metadata()).await?;\n", "", 'C12'),
+ 'c12-follow-links': ('src/fs.rs',
+   "    let walkdir = WalkDir::new(path);", "    let walkdir = WalkDir::new(path).follow_links(true);", 'C12 C15'),
+ 'c12-no-workdir-prune': ('src/fs.rs',
+   "            .filter_entry(|e| !is_work_dir(e))\n", "", 'C12 C15'),
 }
 
 def sh(cmd, **kw):
